@@ -84,6 +84,9 @@ def coverage(
     if not platforms:
         platforms = set().union(*setmap.keys())
 
+    if len(platforms) == 0:
+        return float("nan")
+
     used = 0
     total = 0
     for subset, sloc in setmap.items():
